@@ -147,3 +147,144 @@ func c14SingleReply(c *Ctx) {
 		c.Unresolved("C14.R7", "sendHijackReply call in TerminateStream")
 	}
 }
+
+// c14FactoriesInConfigOrder (R8): the filter factories are kept in the order of the configuration.
+// CreateFilterChain walks the stored factory list front to back; that list is the only thing that fixes the order in which
+// a listener's stream filters are added to every chain. Clause: every value stored into StreamFilterFactoryImpl.factories
+// is an ordered image of the configuration the function was given: either the direct result of a package function that
+// appends one factory per configuration entry inside a single loop over its parameter (and nowhere else), applied to the
+// whole configuration; or a slice the storing function builds itself under the same discipline - appends only inside one
+// loop that ranges over the configuration parameter.
+func c14FactoriesInConfigOrder(c *Ctx) {
+	pkg := "pkg/streamfilter"
+	// orderedBuilder: fn's result #0 is built only by appends inside one loop ranging over fn's slice parameter `par`
+	orderedImage := func(fn *ssa.Function, result ssa.Value, par ssa.Value) (bool, string) {
+		loops := naturalLoops(fn)
+		var appends []ssa.Instruction
+		seen := map[ssa.Value]bool{}
+		var collect func(v ssa.Value, d int)
+		collect = func(v ssa.Value, d int) {
+			if v == nil || seen[v] || d > 10 {
+				return
+			}
+			seen[v] = true
+			switch x := v.(type) {
+			case *ssa.Phi:
+				for _, e := range x.Edges {
+					collect(e, d+1)
+				}
+			case *ssa.Call:
+				if b, ok := x.Common().Value.(*ssa.Builtin); ok && b.Name() == "append" {
+					appends = append(appends, x)
+					collect(x.Common().Args[0], d+1)
+				}
+			case *ssa.UnOp:
+				if al, ok := x.X.(*ssa.Alloc); ok {
+					for _, r := range refs(al) {
+						if st, isS := r.(*ssa.Store); isS && st.Addr == ssa.Value(al) {
+							collect(st.Val, d+1)
+						}
+					}
+				}
+			}
+		}
+		collect(result, 0)
+		if len(appends) == 0 {
+			return false, "no append builds the list"
+		}
+		var loop map[*ssa.BasicBlock]bool
+		for _, a := range appends {
+			var in map[*ssa.BasicBlock]bool
+			for _, body := range loops {
+				if body[a.Block()] && (in == nil || len(body) < len(in)) {
+					in = body
+				}
+			}
+			if in == nil {
+				return false, "a factory is appended outside the loop over the configuration (at " + fn.Prog.Fset.Position(a.Pos()).String() + ")"
+			}
+			if loop == nil {
+				loop = in
+			} else if len(loop) != len(in) {
+				return false, "factories are appended in more than one loop"
+			}
+		}
+		// the loop ranges over par: some IndexAddr on par (or len(par)) inside the loop
+		ranges := false
+		for b := range loop {
+			for _, in := range b.Instrs {
+				if ia, ok := in.(*ssa.IndexAddr); ok && ia.X == par {
+					ranges = true
+				}
+			}
+		}
+		if !ranges {
+			return false, "the loop does not range over the configuration"
+		}
+		return true, ""
+	}
+	n := 0
+	ord := ordCounter{}
+	for _, fn := range c.PkgFuncs(pkg) {
+		forEachInstr(fn, false, func(f *ssa.Function, in ssa.Instruction) {
+			ci, ok := in.(ssa.CallInstruction)
+			if !ok || !strings.HasSuffix(calleeName(ci.Common()), "atomic.Value).Store") {
+				return
+			}
+			if _, fld, _, okf := fieldAddrInfo(ci.Common().Args[0]); !okf || fld != "factories" {
+				return
+			}
+			n++
+			key := ord.next(f, "factories-in-config-order")
+			v := stripIface(ci.Common().Args[1])
+			// the configuration parameter of the storing function
+			var cfg ssa.Value
+			for _, p := range f.Params {
+				if strings.HasSuffix(p.Type().String(), "StreamFiltersConfig") || strings.HasSuffix(p.Type().String(), "[]mosn.io/mosn/pkg/config/v2.Filter") {
+					cfg = p
+				}
+			}
+			good, why := false, "the stored list is not built from the function's configuration parameter"
+			call, isC := v.(*ssa.Call)
+			if isC && call.Common().StaticCallee() == nil {
+				isC = false // builtin append: the storing function builds the list itself
+			}
+			if isC && cfg != nil {
+				if cal := call.Common().StaticCallee(); cal != nil && len(cal.Blocks) > 0 && len(call.Common().Args) == 1 {
+					arg := call.Common().Args[0]
+					for i := 0; i < 2; i++ {
+						if ct, isCT := arg.(*ssa.ChangeType); isCT {
+							arg = ct.X
+						}
+					}
+					if arg != cfg {
+						why = cal.Name() + " is applied to a part of the configuration only"
+					} else {
+						okB := true
+						for _, rs := range returnSites(cal, 0) {
+							if isNilConst(rs.val) {
+								continue
+							}
+							if o, w := orderedImage(cal, rs.val, cal.Params[0]); !o {
+								okB, why = false, w
+							}
+						}
+						if okB {
+							good, why = true, "the result of "+cal.Name()+"(config): one factory per entry, appended in one loop over the configuration"
+						}
+					}
+				}
+			} else if cfg != nil {
+				if o, w := orderedImage(f, v, cfg); o {
+					good, why = true, "built by appends inside one loop over the configuration"
+				} else {
+					why = w
+				}
+			}
+			c.Check("C14.R8", key, in.Pos(), good, why, "the factory list stored by "+f.Name()+" is not an ordered image of the configuration ("+why+"): filters are added to every chain in the order of this list, so a filter can end up behind one it was configured in front of - e.g. a mirror or tracing filter then sees a request that the access filter configured before it denies")
+		})
+	}
+	if n < 1 {
+		c.Unresolved("C14.R8", "stores to StreamFilterFactoryImpl.factories")
+	}
+}
